@@ -165,16 +165,20 @@ def independence(chk, ex, p, res, V, v, fam, what, replay):
         shifted = z3.substitute(res, *sub)
         basesub = base       # the defining constraints of the leaves are uninterpreted: no constraint mentions them
         tag = 'sm-limit:%s:leaf-class%d(%s)' % (what, ci, cl[0][0])
-        r_, m = chk.prove(tag, basesub + [shifted != res], timeout_ms=60000, family=fam,
-                          sample={'obligation': 'SM limit (cos(beta-alpha)=0, mh = mhSM): the coefficient of the loop function %s at the '
-                                  'light-Higgs mass vanishes in %s (h terms cancel against the subtracted SM terms)' % (cl[0][0], what)})
-        if r_ == 'sat':
+        smp = {'obligation': 'SM limit (cos(beta-alpha)=0, mh = mhSM): the coefficient of the loop function %s at the '
+               'light-Higgs mass vanishes in %s (h terms cancel against the subtracted SM terms)' % (cl[0][0], what)}
+        cons = basesub + [shifted != res]
+        chk.note_formula(cons)
+        r_, m = chk.solve(cons, 180000)
+        if r_ == 'unsat':
+            chk.record(tag, 'discharged', family=fam, sample=smp)
+        elif r_ == 'sat':
+            chk.record(tag, 'violated', family=fam)
             chk.violation(tag, 'C10:sm-limit:%s' % what, '%s: the light-Higgs terms do not cancel against the SM subtraction in the SM limit '
                           '(loop function %s)' % (what, cl[0][0]), '#!/bin/sh\ncd %s && exec python3-vt -m %s\n' % (VERIF, replay))
-        elif r_ != 'unsat':
-            # normal form fallback
-            rr = polyid.prove_identity(chk, tag + ':nf', ex, shifted, res, [], None, fam,
-                                       {'obligation': 'coefficient of %s at the light-Higgs mass vanishes (normal form)' % cl[0][0]})
+        else:
+            chk.record(tag, 'inconclusive', 'solver timeout', family=fam)
+            chk.inconclusive.append(tag)
     chk.extra.setdefault('sm_limit_leaf_classes', {})[what] = [[k for (k, _, _) in cl] for cl in classes]
     if not classes:
         chk.record('sm-limit:%s:no-light-higgs-leaves' % what, 'discharged', family=fam,
